@@ -70,6 +70,8 @@ func init() {
 			guard(r, "GETKEYS", func() { ruleGETKEYS(w, r) })
 			guard(r, "NOWRITE", func() { ruleNOWRITE(w, r) })
 			guard(r, "NEEDSLICE", func() { ruleNEEDSLICE(w, r) })
+			guard(r, "ERRIDENT", func() { ruleERRIDENT(w, r) })
+			guard(r, "FIELDCROSS", func() { ruleFIELDCROSS(w, r) })
 			guard(r, "BASECUT", func() { ruleBASECUT(w, r) })
 		},
 	})
@@ -107,6 +109,10 @@ func init() {
 			guard(r, "GLOBCALL", func() { ruleGLOBCALL(w, r) })
 			guard(r, "GLOB", func() { ruleGLOB(w, r, globOpts{literal: true, complete: true}) })
 			guard(r, "GETKEYS", func() { ruleGETKEYS(w, r) })
+			guard(r, "ERRIDENT", func() { ruleERRIDENT(w, r) })
+			guard(r, "NAMEFID", func() { ruleNAMEFID(w, r, "par2") })
+			guard(r, "FIELDCROSS", func() { ruleFIELDCROSS(w, r) })
+			guard(r, "ERRFLOW", func() { ruleERRFLOW(w, r, errflowScope{fnNames: parseChain, tag: " in the parsing functions"}, 40) })
 			guard(r, "BASECUT", func() { ruleBASECUT(w, r) })
 			guard(r, "EXTCUT", func() { ruleEXTCUT(w, r) })
 			guard(r, "DEADST", func() { ruleDEADST(w, r) })
@@ -133,6 +139,11 @@ func init() {
 			guard(r, "EXTCUT", func() { ruleEXTCUT(w, r) })
 			guard(r, "NAMESYM", func() { ruleNAMESYM(w, r, "par1") })
 			guard(r, "SAVEDONLY", func() { ruleSAVEDONLY(w, r) })
+			guard(r, "ERRIDENT", func() { ruleERRIDENT(w, r) })
+			guard(r, "OPTKEEP", func() { ruleOPTKEEP(w, r) })
+			guard(r, "FIELDCROSS", func() { ruleFIELDCROSS(w, r) })
+			guard(r, "WGUARD", func() { ruleWGUARD(w, r, false) })
+			guard(r, "SKIPOK", func() { ruleSKIPOK(w, r) })
 			guard(r, "BASECUT", func() { ruleBASECUT(w, r) })
 		},
 	})
@@ -146,6 +157,10 @@ func init() {
 			guard(r, "TABLEFILL", func() { ruleTABLEFILL(w, r, 2) })
 			guard(r, "PAIR", func() { rulePAIRpar2(w, r, pairOpts{encoder: true, slicing: true}) })
 			guard(r, "EFF", func() { ruleEFF(w, r, effOpts{e1: true, impl: true, onlyPkg: "par2"}) })
+			guard(r, "OPTKEEP", func() { ruleOPTKEEP(w, r) })
+			guard(r, "GENORDER", func() { ruleGENORDER(w, r) })
+			guard(r, "FIELDCROSS", func() { ruleFIELDCROSS(w, r) })
+			guard(r, "DETERM", func() { ruleDETERM(w, r) })
 			guard(r, "FMTCONST", func() { ruleFMTCONST(w, r) })
 			guard(r, "BASECUT", func() { ruleBASECUT(w, r) })
 			guard(r, "TABLEFILL", func() {
@@ -179,6 +194,9 @@ func init() {
 			guard(r, "EXTCUT", func() { ruleEXTCUT(w, r) })
 			guard(r, "BASECUT", func() { ruleBASECUT(w, r) })
 			guard(r, "ORDERINDEP", func() { ruleORDERINDEP(w, r) })
+			guard(r, "SANIT", func() { ruleSANIT(w, r) })
+			guard(r, "NAMEFID", func() { ruleNAMEFID(w, r, "par2") })
+			guard(r, "ERRFLOW", func() { ruleERRFLOW(w, r, errflowScope{fnNames: parseChain, tag: " in the parsing functions"}, 40) })
 			guard(r, "FILTER", func() { ruleFILTER(w, r) })
 		},
 	})
@@ -264,6 +282,7 @@ func init() {
 			guard(r, "EXTCUT", func() { ruleEXTCUT(w, r) })
 			guard(r, "NAMESYM", func() { ruleNAMESYM(w, r, "par1") })
 			guard(r, "SAVEDONLY", func() { ruleSAVEDONLY(w, r) })
+			guard(r, "OPTKEEP", func() { ruleOPTKEEP(w, r) })
 			guard(r, "HDRFIELDS", func() { ruleHDRFIELDS(w, r) })
 			guard(r, "BASECUT", func() { ruleBASECUT(w, r) })
 			guard(r, "EFF", func() { ruleEFF(w, r, effOpts{e1: true, impl: true, onlyPkg: "par1"}) })
@@ -327,6 +346,7 @@ func init() {
 			guard(r, "NONEMPTY", func() { ruleNONEMPTY(w, r, "rsec16", "par1", "par2") })
 			guard(r, "ENTRY-SEQ", func() { ruleENTRYSEQ(w, r, "par1", "par2") })
 			guard(r, "IFSCPAIRS", func() { ruleIFSCPAIRS(w, r) })
+			guard(r, "ERRIDENT", func() { ruleERRIDENT(w, r) })
 			guard(r, "SLICECAP", func() { ruleSLICECAP(w, r) })
 			guard(r, "NOWRITE", func() { ruleNOWRITE(w, r) })
 			guard(r, "PAIR", func() { rulePAIRpar2(w, r, pairOpts{decoder: true}) })
